@@ -157,6 +157,18 @@ class World:
                 spec.loader.exec_module(mod)
                 t = ModuleTemplate(mod, module_filename=path, template_filename=fn)
                 how = "modfile"
+            elif kind in ("wrapsrc", "wrapmix"):
+                import importlib.util
+                path = self.modpath[(s, fam)]
+                spec = importlib.util.spec_from_file_location("wrap_%d" % self.n, path)
+                mod = importlib.util.module_from_spec(spec)
+                spec.loader.exec_module(mod)
+                if kind == "wrapsrc":
+                    with open(path, encoding="utf-8") as f:
+                        t = ModuleTemplate(mod, module_source=f.read(), template_source=src_text(s) if self.n % 2 else src_text(s).encode("utf-8"))
+                else:
+                    t = ModuleTemplate(mod, module_filename=path, template_source=src_text(s))
+                how = "modfile"
             else:
                 raise MachineryError("unknown kind " + kind)
         except MachineryError:
@@ -583,7 +595,8 @@ def realise(tpl, d, seed, first):
         # when the template prints URIs its meaning depends on the spelling it was requested under
         return key + "@" + sp if urisens and sp else key
 
-    def queries(t, path, lookup=None, sp=None, light=False):
+    def queries(t, path, lookup=None, sp=None, light=False, gsrc=None, gcode=None):
+        # gsrc / gcode: the template text / module text GIVEN to a ModuleTemplate (the ground truth for .source / .code then)
         n = len(objs)
 
         def rc():
@@ -618,10 +631,12 @@ def realise(tpl, d, seed, first):
             ev.append({"ev": "render", "t": n, "m": "render", "key": K("kid|typed", sp), "dig": _d(r), "seed": seed, "path": path})
         s = _try(lambda: t.source)
         # ground truth of .source for this path: the text given (string templates) or the content of the template file
-        sback = "file" if getattr(t, "filename", None) and "string" not in path else "given"
+        sback = "given" if gsrc is not None else "file" if getattr(t, "filename", None) and "string" not in path else "given"
         struth = "ok"
         if isinstance(s, str) and not s.startswith("exc:"):
-            if sback == "file":
+            if gsrc is not None:
+                want = gsrc
+            elif sback == "file":
                 with open(t.filename, "rb") as f:
                     want = f.read().decode(tpl["encoding"])
             else:
@@ -644,9 +659,13 @@ def realise(tpl, d, seed, first):
         # ground truth of .code for THIS path: the text of the module file when the module lives in one (as Python reads
         # it, PEP 263), else a module source that defines what the live module defines
         mfile = getattr(t.module, "__file__", None)
-        backing = "modfile" if mfile and os.path.isfile(mfile) else "memory"
+        backing = "given" if gcode is not None else "modfile" if mfile and os.path.isfile(mfile) else "memory"
         truth = "ok"
-        if isinstance(c, str) and not c.startswith("exc:") and cls == "ok":
+        if backing == "given":
+            truth = "ok" if c == gcode else "not-the-given-module-source"
+            if truth == "ok" and tpl["defs"]:
+                truth = _try(lambda: "ok" if t.get_def(tpl["defs"][0][0]).code == gcode else "get_def-code-differs")
+        elif isinstance(c, str) and not c.startswith("exc:") and cls == "ok":
             truth = _code_truth(t, c, mfile if backing == "modfile" else None, [x[0] for x in tpl["defs"]])
         ev.append({"ev": "code", "t": n, "owner": owner, "cls": cls, "backing": backing, "truth": truth, "seed": seed, "path": path})
         if light:
@@ -725,6 +744,31 @@ def realise(tpl, d, seed, first):
         t = construct("wrap", "uri" if bare else "fn", wrap, how="modfile")
         if t is not None:
             queries(t, "wrap", sp="p")
+
+        # ... constructed in the other supported ways: from the sources (template text as str / as bytes), mixed (module
+        # file name + template text), from the module alone; with and without a lookup where the template needs none
+        def load():
+            spec = importlib.util.spec_from_file_location("wrapped2_%s_%d" % (tpl["marker"], len(objs)), path)
+            mod = importlib.util.module_from_spec(spec)
+            spec.loader.exec_module(mod)
+            return mod
+        with open(path, "rb") as f:
+            import tokenize
+            menc = tokenize.detect_encoding(f.readline)[0]
+        with open(path, "rb") as f:
+            mtext = f.read().decode(menc)
+        lkopt = {"lookup": lkm} if (refs or seed % 2) else {}
+        nm = "uri" if bare else "fn"
+        t = construct("wrapsrc", nm, lambda: ModuleTemplate(load(), module_source=mtext, template_source=text, **lkopt, **mopts), how="modfile")
+        if t is not None:
+            queries(t, "wrap/sources-str", sp="p", light=True, gsrc=text, gcode=mtext)
+        t = construct("wrapsrc", nm, lambda: ModuleTemplate(load(), module_source=mtext, template_source=text.encode(tpl["encoding"]),
+                                                            **lkopt, **mopts), how="modfile")
+        if t is not None:
+            queries(t, "wrap/sources-bytes", sp="p", light=True, gsrc=text, gcode=mtext)
+        t = construct("wrapmix", nm, lambda: ModuleTemplate(load(), module_filename=path, template_source=text, **lkopt, **mopts), how="modfile")
+        if t is not None:
+            queries(t, "wrap/module-file+template-text", sp="p", light=True, gsrc=text)
     # 7. the mako-render command: its own Template(filename=...), string-valued variables; also with --template-dir and
     #    reading the template from standard input
     if bare:
